@@ -10,7 +10,8 @@ CHECKS = {
         "quick": {"shards": 16, "rounds": 1, "checks": 400, "timeout": 900},
         "thorough": {"shards": 16, "rounds": 8, "checks": 500, "timeout": 3000},
         "assumptions": [
-            "single client; the background flush goroutine is quiesced between steps so a case is a function of its program",
+            "single client; in 3 of 4 programs the background flush goroutine is quiesced between steps so that a case is a function of its program; in 1 of 4 it is not awaited and the verdict is schedule dependent",
+            "the retire step (log files dropped through WAL.ManageRetention) is harness maintenance, not an operation of the property",
             "process-level semantics only (no power-loss model)",
         ],
     },
